@@ -4,7 +4,7 @@
    aggregates, and every distinct canonical report that the real Linter.Lint returned over all
    argument permutations / GOMAXPROCS / repetitions.  The model recomputes the report from the
    tables.  No theorems here. *)
-From Regal Require Export Base.PathModel Model.Sched.
+From Regal Require Export Base.PathModel Model.Sched Model.BaseCache.
 
 Fixpoint remove_first {X} (eqb : X -> X -> bool) (x : X) (l : list X) : option (list X) :=
   match l with
@@ -109,3 +109,39 @@ Definition inp_agrees (c : inp_case) : bool :=
   | None, None => true
   | _, _ => false
   end.
+
+(* ---- base cache (internal/cache) ------------------------------------------------------------ *)
+Fixpoint val_eqb (a b : val) {struct a} : bool :=
+  match a, b with
+  | VLeaf x, VLeaf y => N.eqb x y
+  | VObj fa, VObj fb =>
+      (fix go (fa fb : list (key * val)) {struct fa} : bool :=
+         match fa, fb with
+         | [], [] => true
+         | (k, v) :: fa', (k', v') :: fb' => N.eqb k k' && val_eqb v v' && go fa' fb'
+         | _, _ => false
+         end) fa fb
+  | _, _ => false
+  end.
+
+Definition oval_eqb (a b : option val) : bool :=
+  match a, b with
+  | Some x, Some y => val_eqb x y
+  | None, None => true
+  | _, _ => false
+  end.
+
+Record cache_case := {
+  cc_doc : val;
+  cc_ops : list op;
+  cc_got : list (option val) }.        (* what the real Get answered, one entry per OGet *)
+
+Fixpoint ovals_eqb (a b : list (option val)) : bool :=
+  match a, b with
+  | [], [] => true
+  | x :: a', y :: b' => oval_eqb x y && ovals_eqb a' b'
+  | _, _ => false
+  end.
+
+Definition cache_agrees (c : cache_case) : bool :=
+  ovals_eqb (replay (cc_doc c) empty_trie (cc_ops c)) (cc_got c).
